@@ -163,6 +163,9 @@ func (b *IntsBuilder) ProcessExcludeAndPassthrough(sourceApp, epname string, t *
 	if /* b.Excludes.Contains(sourceApp) || */ b.Excludes.Contains(targetApp) {
 		return
 	}
+	if b.M.GetApps()[targetApp] == nil {
+		return // call to an application that is not defined: nothing to draw
+	}
 	if syslutil.HasPattern(b.M.GetApps()[targetApp].GetAttrs(), "human") {
 		return
 	}
